@@ -157,6 +157,9 @@ func (o *Options) ServerOptions() []string {
 	// 	args[ac++] = "--delete-excluded";
 	// else if (delete_mode)
 	// 	args[ac++] = "--delete";
+	if o.DeleteMode() {
+		sargv = append(sargv, "--delete")
+	}
 
 	// if (size_only)
 	// 	args[ac++] = "--size-only";
